@@ -95,7 +95,7 @@ def c15_1(ctx, ss):
         a = wflow.expand(calls[0].args[0]) if calls else None
         p0 = ws.params[0]
         okn = isinstance(a, ast.ListComp) and isinstance(a.elt, ast.IfExp) and txt(a.elt.test) == f"isinstance(__elem__({p0}), dict)" \
-            and txt(a.elt.body) == f"next(iter(__elem__({p0}).keys()))" and txt(a.elt.orelse) == f"__elem__({p0})"
+            and txt(a.elt.body) == f"next(iter(__elem__({p0})))" and txt(a.elt.orelse) == f"__elem__({p0})"
         (ctx.holds if okn else ctx.violation)("C15.3", ckey(ws, None, "names"), where(ws, ws.node),
                                               "a decaying daughter is shown by its name (the key of its sub-chain), others as they are" if okn
                                               else "the names shown in a node with sub-decays are not 'key of the sub-chain, or the daughter itself'")
@@ -307,7 +307,7 @@ def c15_4(ctx, ss):
             ok_list = okh and enum_src == txt(head.args[0])
             ok_tn = tn is not None and txt(cflow.expand(tn, keep=KEEP)) == txt(head)
             es = f"__elem__(enumerate({enum_src}))[1]"
-            ok_sub = subarg is not None and txt(cflow.expand(subarg, keep=KEEP)) in (f"{es}[next(iter({es}.keys()))]", f"{es}[next(iter({es}))]")
+            ok_sub = subarg is not None and txt(cflow.expand(subarg, keep=KEEP)) in (f"{es}[next(iter({es}))]", f"{es}[next(iter({es}))]")
             conds = [(txt(x), pol) for kind, x, pol in guards.path_conditions(inner, stmt_of(cf, c)) if kind == "if"]
             ok_guard = conds in ([(f"isinstance({el}, str)", False)], [(f"isinstance({el}, dict)", True)])
             exits = any(isinstance(x, (ast.Break, ast.Return)) for x in ast.walk(inner))
@@ -406,7 +406,7 @@ def c15_5(ctx, ss):
     roots_in = [c for c in pf.calls_in(ff.node) if txt(c.func) == "self.graph.node"]
     roots_out = [c for c in pf.calls_in(bf.node, nested=False) if txt(c.func) == "self.graph.node"]
     tops = [c for c in pf.calls_in(bf.node, nested=False) if isinstance(c.func, ast.Name) and c.func.id == "iterate_chain"]
-    okt = len(tops) == 1 and len(tops[0].args) >= 1 and bflow.text(tops[0].args[0]) in ("self._chain[next(iter(self._chain.keys()))]", "self._chain[next(iter(self._chain))]")
+    okt = len(tops) == 1 and len(tops[0].args) >= 1 and bflow.text(tops[0].args[0]) in ("self._chain[next(iter(self._chain))]", "self._chain[next(iter(self._chain))]")
     tn = call_arg(tops[0], 1, "top_node") if tops else None
     lp_ = call_arg(tops[0], 2, "link_pos") if tops else None
     ok = False
@@ -427,7 +427,7 @@ def c15_5(ctx, ss):
         lab = call_arg(rc, 1, "label")
         e_ = rflow_.expand(lab) if lab is not None else None
         okl = isinstance(e_, ast.Call) and isinstance(e_.func, ast.Name) and e_.func.id == "html_table_label" and e_.args \
-            and txt(e_.args[0]) in ("[next(iter(self._chain.keys()))]", "[next(iter(self._chain))]")
+            and txt(e_.args[0]) in ("[next(iter(self._chain))]", "[next(iter(self._chain))]")
         (ctx.holds if okl else ctx.violation)("C15.5", ckey(rf_, None, "root-label"), where(rf_, rc),
                                               "the root node shows the chain's mother" if okl else f"the root node is registered with label `{txt(e_)[:60] if e_ is not None else None}`: the mother is not shown")
     (ctx.holds if ok else ctx.violation)("C15.5", ckey(ff, None, "root"), where(ff, (roots_in or [ff.node])[0]) if roots_in else where(bf, (roots_out or [bf.node])[0]),
